@@ -294,7 +294,10 @@ _extend('C07',
         [('scipy densities/samplers are oracles.',
           'scipy densities/samplers are oracles; the prior density and the normal component densities enter the Coq statement as '
           'oracle tables computed by the harness (own formulas, standardised coordinates); a model whose parameter scales differ by more '
-          'than ~1e4 makes scipy refuse the proposal covariance (LinAlgError, run does not finish): counted and skipped.')])
+          'than ~1e4 makes scipy refuse the proposal covariance (LinAlgError, run does not finish): counted and skipped; so are runs in '
+          'which GMDistribution.rvs reports 100 trials without a valid proposal (unit-covariance fallback on a small scale never '
+          'terminates) and the covariance clause of a population whose weighted variance is not estimable in binary64 (allowance '
+          '64 ulp x conditioning >= 1).')])
 _extend('C14',
         ' WAVE 3: in-place writes to one node state through a reference are operations of the model and of the scripts (ESetFlag: '
         'model[n].uses_meta = b as elfi/examples/bdm.py does, model.get_state(n)["attr_dict"][key] = b, '
